@@ -418,7 +418,7 @@ Proof.
   unfold raw_post.
   set (ex := emit s (TAct (ARwPost j))).
   assert (KS : forall c v, ksame (kern s) (fst (k_write (kern ex) (rw_wfd ex j) c v))) by (intros; apply ksame_write).
-  destruct (efd_raw ex =? 0).
+  destruct (raw_is_pipe ex j).
   - specialize (KS 1 0). destruct (k_write (kern ex) (rw_wfd ex j) 1 0) as [k1 r]. cbn [fst] in KS.
     apply J_set_kern; [assumption|assumption|reflexivity].
   - specialize (KS 8 1). destruct (k_write (kern ex) (rw_wfd ex j) 8 1) as [k1 r]. cbn [fst] in KS.
@@ -1280,10 +1280,10 @@ Proof.
   destruct Q as (T & U1 & I1 & C1). destruct T as [T1 T2 T3 T4 T5].
   destruct (do_close_step s1 (-1) (rw_rfd s1 j) I1) as (R2 & E2 & I2 & F2 & W2 & H2 & EF2 & RF2 & WF2 & _).
   set (s2 := do_close s1 (rw_rfd s1 j)) in *.
-  assert (G3 : exists s3, (if efd_raw s2 =? 0 then do_close s2 (rw_wfd s2 j) else s2) = s3 /\
+  assert (G3 : exists s3, (if raw_is_pipe s2 j then do_close s2 (rw_wfd s2 j) else s2) = s3 /\
                RawStep s2 s3 /\ EvSame s2 s3 /\ FdI s3 (-1) /\ fdt s3 = fdt s2 /\ rw_reg s3 = rw_reg s2 /\
                handled s3 = handled s2).
-  { destruct (efd_raw s2 =? 0).
+  { destruct (raw_is_pipe s2 j).
     - destruct (do_close_step s2 (-1) (rw_wfd s2 j) I2) as (R3 & E3 & I3 & F3 & W3 & H3 & _).
       eexists. split; [reflexivity|].
       split; [exact R3|split; [exact E3|split; [exact I3|split; [exact F3|split; [exact W3|exact H3]]]]].
